@@ -186,22 +186,34 @@ func init() {
 			}, Oracle: c15uuidGetOracle},
 			{Name: "c15.uuid1.settime", Impl: func(a []string) string {
 				u := &uuid_v1.UUIDv1{}
+				if c13Used(a) { // history: the value has held a later time before (parsed, or set earlier)
+					u.Time = 0x0FFFFFFFFFFFFFFF
+				}
 				u.SetTime(c15time(a))
 				return fmt.Sprintf("ok %d", u.Time)
 			}, Oracle: c15uuidSetOracle},
 			{Name: "c15.uuid2.settime", Impl: func(a []string) string {
 				u := &uuid_v2.UUIDv2{}
+				if c13Used(a) { // history: the value has held a later time before (parsed, or set earlier)
+					u.Time = 0x0FFFFFFFFFFFFFFF
+				}
 				u.SetTime(c15time(a))
 				return fmt.Sprintf("ok %d", u.Time)
 			}, Oracle: c15uuidSetOracle},
 			{Name: "c15.uuid1.roundtrip", Impl: func(a []string) string {
 				u := &uuid_v1.UUIDv1{}
+				if c13Used(a) {
+					u.SetTime(time.Unix(32503680000, 0)) // the year 3000 first
+				}
 				u.SetTime(c15time(a))
 				t := u.GetTime()
 				return fmt.Sprintf("ok %d %d", t.Unix(), t.Nanosecond())
 			}},
 			{Name: "c15.uuid2.roundtrip", Impl: func(a []string) string {
 				u := &uuid_v2.UUIDv2{}
+				if c13Used(a) {
+					u.SetTime(time.Unix(32503680000, 0)) // the year 3000 first
+				}
 				u.SetTime(c15time(a))
 				t := u.GetTime()
 				return fmt.Sprintf("ok %d %d", t.Unix(), t.Nanosecond())
